@@ -42,6 +42,17 @@ CHECKS = {
    note="Crash points are libc-call boundaries; four server schedules per point, not all interleavings; real-time latencies with slack 1500 ms, 'immediately' = 500 ms, confirm-by-rerun; a dead server's directory and the statistics counters are observed but not judged; Linux abstract sockets, max_msg_size 8192; TLC, ASan/UBSan and the harness projection are trusted.",
    technique="TLA+ model checking (TLC, safety and liveness) + spec-driven fault enumeration on the C code (call-counting interposer, forked peers) + TLC trace validation",
    design_ref="DESIGN.md section 4, C03"),
+ "C05": dict(
+   text="spec/IpcAdmit.tla states admission as invariants over the accept arguments, decisions, client results, messages and everything that "
+        "exists under the server's /dev/shm prefix (owner, group, mode of every file and directory), evaluated in every state. TLC checks a "
+        "step-by-step model of the documented mechanism against them for every credential, decision, auth_set and transport choice and every "
+        "interleaving of two handshakes. Binding: TLC enumerates scenarios; real client processes that changed their real/effective ids connect to "
+        "a real single-threaded stepped qb_ipcs server (or speak the handshake on the wire and try to push requests through whatever they can reach); "
+        "every file-system libc call of the server is followed by a stat snapshot of its /dev/shm prefix; TLC validates every event, evaluating the "
+        "invariants at each observation (IpcAdmitTrace.tla).",
+   note="Root sandbox (without root only the caller's own ids are explored, recorded in the evidence); ids from {0, 1, 65534, 1000} x {0, 1, 1000}; observation points are the interposed libc calls; the directory rule is 'owner/group authorised, no access for other' (DESIGN.md 4.0); KF-C05-3 excluded by trigger with a directed reproducer.",
+   technique="TLA+ model checking (TLC) + TLC-generated scenarios executed with real client processes + TLC trace validation at every observation point",
+   design_ref="DESIGN.md section 4, C05"),
  "C07": dict(
    text="spec/RingAbs.tla states the capacity contract and FIFO semantics of the ring buffer (must-accept rule with 16 bytes overhead, "
         "refused write and too-small read change nothing, reads return the accepted chunks byte for byte); TLC checks it exhaustively for "
